@@ -74,7 +74,8 @@ def radii(steps, disp):
 
 @st.composite
 def crop_cases(draw):
-    pair = draw(gen.image_pair(min_rows=30, max_rows=60, min_cols=70, max_cols=130, max_val=19, masks=True, tile_max=9))
+    pair = draw(gen.image_pair(min_rows=30, max_rows=60, min_cols=70, max_cols=130, max_val=19, masks=True, tile_max=9,
+                               texture=True))
     steps = draw(local_pipeline())
     a = draw(st.integers(-4, 3))
     disp = [a, min(4, a + draw(st.integers(0, 4)))]
@@ -146,7 +147,8 @@ def crop_body(ctx: Ctx, p: dict) -> None:
 
 @st.composite
 def flip_cases(draw):
-    pair = draw(gen.image_pair(min_rows=12, max_rows=40, min_cols=20, max_cols=60, max_val=19, masks=True, tile_max=9))
+    pair = draw(gen.image_pair(min_rows=12, max_rows=40, min_cols=20, max_cols=60, max_val=19, masks=True, tile_max=9,
+                               texture=True))
     steps = draw(local_pipeline(allow_bilateral=False))
     a = draw(st.integers(-4, 3))
     return {"pair": pair, "pipeline": steps, "disp": [a, min(4, a + draw(st.integers(0, 4)))]}
